@@ -63,7 +63,7 @@ func (c *OCSPRevocationChecker) IsRevoked(clientCertificate *x509.Certificate, v
 			if output == nil {
 				continue
 			}
-			ocspResponse, err := c.parseOcspResponse(certCandidates, output, ocspServer)
+			ocspResponse, err := c.parseOcspResponse(clientCertificate, certCandidates, output, ocspServer)
 			if err != nil {
 				c.logger.Debug("failed to parse ocsp server response", zap.String("ocsp_server", ocspServer), zap.Error(err))
 				continue
@@ -106,20 +106,36 @@ func (c *OCSPRevocationChecker) calculateEvictionTime(response *ocsp.Response) t
 	}
 }
 
-func (c *OCSPRevocationChecker) parseOcspResponse(certCandidates []*core.CertificateChainEntry, output []byte, ocspServer string) (*ocsp.Response, error) {
-	ocspResponse, err := ocsp.ParseResponse(output, nil)
-	if err == nil {
-		return ocspResponse, nil
-	}
+// parseOcspResponse only accepts a successful response which contains a status for the client certificate and which is
+// signed by one of the issuer candidates or by a responder certificate an issuer candidate has issued for OCSP signing
+func (c *OCSPRevocationChecker) parseOcspResponse(clientCertificate *x509.Certificate, certCandidates []*core.CertificateChainEntry, output []byte, ocspServer string) (*ocsp.Response, error) {
 	for _, certCandidate := range certCandidates {
-		ocspResponse, err := ocsp.ParseResponse(output, certCandidate.Certificate)
+		ocspResponse, err := ocsp.ParseResponseForCert(output, clientCertificate, certCandidate.Certificate)
 		if err != nil {
 			c.logger.Debug("failed to parse ocsp server response", zap.String("ocsp_server", ocspServer), zap.Error(err))
+			continue
+		}
+		if ocspResponse.Certificate != nil && !isAuthorizedResponder(ocspResponse.Certificate, certCandidate.Certificate) {
+			c.logger.Debug("ocsp response was signed by a certificate which is not authorized for ocsp signing", zap.String("ocsp_server", ocspServer))
 			continue
 		}
 		return ocspResponse, nil
 	}
 	return nil, errors.New("unable to parse ocsp response with any certificate available")
+}
+
+// isAuthorizedResponder checks a responder certificate embedded into the response (its signature by the issuer was already verified):
+// it needs to be the issuer itself or a certificate with the OCSP signing extended key usage (rfc6960 section 4.2.2.2)
+func isAuthorizedResponder(responderCertificate *x509.Certificate, issuerCertificate *x509.Certificate) bool {
+	if bytes.Equal(responderCertificate.Raw, issuerCertificate.Raw) {
+		return true
+	}
+	for _, extKeyUsage := range responderCertificate.ExtKeyUsage {
+		if extKeyUsage == x509.ExtKeyUsageOCSPSigning {
+			return true
+		}
+	}
+	return false
 }
 
 func (c *OCSPRevocationChecker) Provision(ocspConfig *config.OCSPConfig, logger *zap.Logger) error {
